@@ -64,6 +64,34 @@ theorem ubd_declFormals {m : String} {W : String → Nat} (l : List (String × S
         exact ⟨ubd_growPort d1 u1 pn _ (by omega), defEx_growPort d1 m pn _⟩
     exact ih (fun fb hfb => hreq fb (by simp [hfb])) this.2 this.1 h2
 
+/-- after the formals of a statement were declared, each of them names a port that is wide enough
+    (repaired `parse_subcircuit_port`: also for `unconn` actuals) -/
+theorem declFormals_port {m : String} (l : List (String × String)) :
+    ∀ {st st' : St}, DefEx st m → declFormals st m l = Except.ok st' →
+      ∀ fa ∈ l, ∀ pn pi, splitIdx fa.1 = Except.ok (pn, pi) → ∃ p, findIn (portsOf st' m) pn = some p ∧ pi < p.width := by
+  induction l with
+  | nil => intro st st' _ _ fa hfa; cases hfa
+  | cons fb r ih =>
+    intro st st' hd h fa hfa pn pi hs
+    unfold declFormals at h
+    obtain ⟨s1, h1, h2⟩ := bind_ok h
+    have hd1 : DefEx s1 m := defEx_of_dv (dv_declFormals (model := m) [fb] (st' := s1) (by unfold declFormals; rw [h1]; rfl)) hd
+    rcases List.mem_cons.mp hfa with rfl | hm
+    · have hw : pi < portWidth s1 m pn := by
+        unfold declFormal at h1
+        rw [hs] at h1
+        simp only [bind, Except.bind, pure, Except.pure] at h1
+        cases h1
+        obtain ⟨hh, hd'⟩ := addPort_has st m pn Dir.undef 0 hd
+        split
+        · rename_i hle; omega
+        · have := (growPort_port (addPort st m pn Dir.undef 0) m pn (pi + 1) hd').2.1 hh
+          omega
+      obtain ⟨p, hp, hlt⟩ := findIn_of_width hw
+      obtain ⟨p', hp', hle⟩ := pm_declFormals r h2 m pn p hp
+      exact ⟨p', hp', by omega⟩
+    · exact ih hd1 h2 fa hm pn pi hs
+
 theorem ubd_connectAll {m parent : String} {idx : Nat} {W : String → Nat} (l : List (String × String))
     (hreq : ∀ fa ∈ l, ∀ pn pi, splitIdx fa.1 = Except.ok (pn, pi) → pi < W pn) :
     ∀ {st st' : St}, DefEx st m → UBd st m W → connectAll st idx parent m l = Except.ok st' → UBd st' m W ∧ DefEx st' m := by
